@@ -402,6 +402,18 @@ def _length_of_emitted_payload(facts, b, s, aff_root_render, v, what):
     return False
 
 
+def _declared_len_sources(b, s):
+    """{'query_length': [X..], 'body_length': [X..]}: the expressions X with `header.<field> = X.len()` stored in this function"""
+    out = {"query_length": [], "body_length": []}
+    for i, j, st in b.assigns():
+        names = [e["f"] for e in st["place"]["p"] if isinstance(e, dict) and "f" in e]
+        if names[-1:] and names[-1] in out:
+            v = _unconv(s.rvalue(st["rv"]))
+            if is_call(v, "len") and v[2]:
+                out[names[-1]].append(_deref_only(v[2][0]))
+    return out
+
+
 def emission(facts, R):
     # every function that serialises a header is an emission route: the ones the reference tree has, plus any other caller of
     # Header::encode (a writer that now frames in place instead of delegating) - judged by the same rules
@@ -413,6 +425,9 @@ def emission(facts, R):
     if derived:
         R.note("functions outside the route table that encode a header, judged as emission routes: %s" % [d_[0] for d_ in derived])
     for path, kind in tuple(ROUTES) + tuple(derived):
+        if path not in facts.bodies and any(d_[0].split("::")[0] == path.split("::")[0] for d_ in derived):
+            R.note("route %s no longer exists; its module has %s, judged as the route" % (path, [d_[0] for d_ in derived if d_[0].split("::")[0] == path.split("::")[0]]))
+            continue
         b = facts.body(path)
         s = Sym(b)
         if kind == "extend":
@@ -456,6 +471,10 @@ def emission(facts, R):
                 cls = "B"   # body_writer(w): the caller-supplied body emitter
             elif t["callee"]["path"] in SIZED_BODY_WRITERS:
                 cls = "B" if _sized_body_writer(b, s, t) else "?" + t["callee"]["path"]
+            elif src is not None and _deref_only(src) in _declared_len_sources(b, s)["query_length"]:
+                cls = "Q"       # whatever it is called: the bytes whose length this function stored as header.query_length
+            elif src is not None and _deref_only(src) in _declared_len_sources(b, s)["body_length"]:
+                cls = "B"
             else:
                 cls = "?" + txt[:60]
             seq.append((i, cls, fs, t))
@@ -793,6 +812,18 @@ def length_formula(facts, R):
             ok = (is_call(v, "len") and (txt.endswith(".%s)" % what) or txt.endswith("(%s)" % what))) or (fld == "body_length" and txt == "body_len")
             if not ok and _length_of_emitted_payload(facts, b, s, None, v, what):
                 ok = True
+            if not ok and is_call(_unconv(v), "len") and _unconv(v)[2]:
+                # the length of what this very function writes after the header
+                x_ = _deref_only(_unconv(v)[2][0])
+                ok = any(t_["callee"]["name"] in ("write_all", "extend_from_slice") and len(t_["args"]) > 1 and _deref_only(s.op(t_["args"][1])) == x_ for _, t_ in b.calls())
+            # ... and where this function itself writes payload bytes after a header it encodes, the length stored is the length of
+            # bytes it writes (not of a like-named neighbour: `self.resp.query.len()` stored, `self.query` written)
+            emits_ = [(_deref_only(s.op(t_["args"][1]))) for _, t_ in b.calls() if t_["callee"]["name"] in ("write_all", "extend_from_slice") and len(t_["args"]) > 1]
+            encodes_ = any(callee_matches(t_["callee"], "header::Header::encode") for _, t_ in b.calls())
+            if ok and encodes_ and len(emits_) >= 2 and is_call(_unconv(v), "len") and _unconv(v)[2]:
+                x_ = _deref_only(_unconv(v)[2][0])
+                R.check(x_ in emits_, "length-formula", b.path, "%s is the length of the %s bytes written" % (fld, what),
+                        "%s := %s, but what %s writes is %s" % (fld, txt, b.path.rsplit("::", 1)[-1], [render(e_)[:60] for e_ in emits_]), w["span"], txt)
             if not ok and fld == "body_length" and v[0] == "call":
                 # declared length of a body written by the paired beve writer over the same argument, in this function
                 ok = any(_sized_body_writer(b, s, t_) and SIZED_BODY_WRITERS[t_["callee"]["path"]].rsplit("::", 1)[-1] == v[1].rsplit("::", 1)[-1]
